@@ -129,6 +129,10 @@ def isSvc (ls : Array String) : Bool :=
     | t :: _ => t == "srec" || t == "sreg" || t == "sdereg" || t == "supd" || t == "scollect"
     | [] => false)
 
-def main : IO Unit := Kap.driverMain (fun id ls =>
+def main : IO Unit := do
+  -- self-test of the schedule-quantified judge: a lost, duplicated or reordered copy on a diamond must be rejected
+  let bad := Kap.C09.AsyncDrv.selfTestFailures
+  if !bad.isEmpty then throw (IO.userError s!"C09 driver self-test failed: {bad}")
+  Kap.driverMain (fun id ls =>
   if Kap.C09.AggDrv.isAgg ls then Kap.C09.AggDrv.judge id ls
   else if isSvc ls then Kap.C09.SvcDrv.judge id ls else Kap.C09.Drv.judge id ls)
